@@ -250,7 +250,7 @@ def g_misc(r):
         def path(sing=sing):
             out = []
             for t in (0.55, 0.7, 0.93):
-                for logx in (-7.0, -2.0, -0.1):
+                for logx in (-20.0, -15.0, -7.0, -2.0, -0.1):     # down to x = 2e-9
                     p = mellin.Path(t, logx, sing)
                     out += [p.n, p.jac, p.prefactor]
             return np.array(out)
